@@ -45,9 +45,25 @@ namespace random_utils {
   static thread_local std::uniform_int_distribution<uint64_t> next_uint64(0, UINT64_MAX);
 
   // thread-safe random bit
+#ifndef DATASKETCHES_VERIF
   static thread_local std::independent_bits_engine<std::mt19937, 1, uint32_t>
     random_bit(static_cast<uint32_t>(std::chrono::system_clock::now().time_since_epoch().count()
       + std::hash<std::thread::id>{}(std::this_thread::get_id())));
+#else
+  // verification hook (-DDATASKETCHES_VERIF only): the fair coin can be supplied and counted by a test harness;
+  // without an installed source it behaves like the original engine
+  struct verif_coin_source {
+    uint32_t (*source)(void*) = nullptr;
+    void* context = nullptr;
+    uint64_t calls = 0;
+    std::independent_bits_engine<std::mt19937, 1, uint32_t> engine{
+      static_cast<uint32_t>(std::chrono::system_clock::now().time_since_epoch().count()
+      + std::hash<std::thread::id>{}(std::this_thread::get_id()))};
+    uint32_t operator()() { ++calls; return source != nullptr ? (source(context) & 1u) : engine(); }
+    void seed(uint32_t s) { engine.seed(s); }
+  };
+  static thread_local verif_coin_source random_bit;
+#endif
 
   inline void override_seed(uint64_t s) {
     rand.seed(s);
